@@ -264,6 +264,14 @@ pub fn run(args: &[String]) -> Vec<String> {
     rustradio::verif::set_stream_size(4096);
     NO_OVERFLOW.store(true, std::sync::atomic::Ordering::SeqCst);
     let mut out = vec![];
+    if arg(args, "--what").as_deref() == Some("au") {
+        // only the AU decoder against its Lean model (used by C14: arbitrary byte segmentation)
+        for _ in 0..cases {
+            let mut r = rng.fork();
+            out.push(au_case(&mut r));
+        }
+        return out;
+    }
     if arg_usize(args, "--probes", 0) != 0 {
         out.extend(probes());
     }
